@@ -288,6 +288,10 @@ def r08_6(ctx, run, rule='R08.6'):
                 if a['k'] == 'const' and 'fn' in a and a['fn'].startswith('jsonpath::path::Path::'):
                     built.add(a['fn'].split('::')[-1])
     handled = set()
+    lost = [fn for fn in ('find_positions', 'select_path') if f.bodies.get(SEL + fn) is None]
+    if lost:
+        run.undecided(rule, SEL + lost[0], 'step-dispatch', f'the evaluator function {lost[0]} was not found under this name (renamed?): which Path variants have an evaluation arm is not decided')
+        return
     for fn in ('find_positions', 'select_path'):
         b = f.bodies.get(SEL + fn)
         if b is None:
